@@ -31,7 +31,8 @@ func main() {
 	}
 	hk.Main(&hk.Component{Name: "schema", Rule: "struct types built at run time with reflect.StructOf from a seeded type grammar (scalars of every int/float kind, pointers, slices, arrays, maps, nested structs, " +
 		"json tags with names/omitempty/-, jsonschema tags; each type carries at most one non-fragment construct: []byte, time.Time, embedded struct (value / pointer / tagged), `,string`, interface, " +
-		"JSON names needing pointer escaping, `-,`, awkward jsonschema tags: every keyword of the tag parser in both tag formats with RE2-invalid patterns, commas / `=` / quotes / semicolons in values, odd numbers, unknown keywords, empty values) plus a corpus of hand-written named types (list, tree, mutual recursion, map of self, wide recursion, recursion through " +
+		"JSON names needing pointer escaping, `-,`, awkward jsonschema tags: every keyword of the tag parser in both tag formats with RE2-invalid patterns, commas / `=` / quotes / semicolons in values, odd numbers, unknown keywords, empty values; distinct anonymous struct types under equally named fields of different parents at different depths, below pointers / slices / maps; " +
+		"JSON field names taken from the JSON-Schema vocabulary: definitions, $defs, $ref, properties, required, type, items, enum, additionalProperties, anyOf, default, $schema, title, description) plus a corpus of hand-written named types (list, tree, mutual recursion, map of self, wide recursion, recursion through " +
 		"anonymous structs, shared sibling types, generic instantiation, colliding type names); x {inline, $defs, nested-ref}; per case: a fully populated value (recursive types: shallow and deep unfolding) " +
 		"and mutated instances. Oracle (model-free): generation terminates, every $ref resolves by JSON pointer, property names = encoding/json's names, python-jsonschema (Draft 2020-12) accepts json.Marshal(value). " +
 		"Tag probes: one tagged field per tag x {str,int,float,bool,slice} x style: the field stays, the parsed keywords against the Lean model of the tag parser. " +
@@ -294,7 +295,6 @@ func (r *runner) constructOf(cs tcase, deep bool) string {
 func (r *runner) runCase(cs tcase, budgets []int) {
 	c := r.c
 	env := envFor(cs.td)
-	allNamed := cs.corpus && !has(cs.td, func(d *TD, f *FD) bool { return d.K == "struct" })
 	nontrivial := cs.recursive || has(cs.td, func(d *TD, f *FD) bool {
 		return f != nil && (d.K == "struct" || d.K == "slice" || d.K == "map" || d.K == "ptr" || d.K == "array" || d.K == "named")
 	})
@@ -310,9 +310,11 @@ func (r *runner) runCase(cs tcase, budgets []int) {
 		if cs.noModel {
 			return false
 		}
-		switch style {
-		case "defs":
-			return allNamed
+		// $defs style: the keys of anonymous struct types are run-time addresses, one per type; the comparator
+		// (checklib/cmp_schema.py) renames them canonically on both sides. Compile-time types that the descriptor spells
+		// out in place (embedded structs) carry their real name in the implementation's $defs and none in the model.
+		if style == "defs" && has(cs.td, func(d *TD, f *FD) bool { return d.K == "struct" && d.rt != nil }) {
+			return false
 		}
 		return true
 	}
